@@ -176,8 +176,27 @@ def cflags_for(variant, extra=()):
     return VARIANT_FLAGS[variant] + list(extra) + c["defines"] + ["-D" + GUARD] + ["-I" + i for i in c["incs"]] + ["-I" + ENGINE, "-I" + os.path.join(VERIF, "ref")]
 
 
+MCRT_SOURCES = ["engine/mcrt_core.c", "engine/mcrt_mon.c", "engine/mcrt_pthread.c", "engine/mcrt_mem.c", "engine/mcrt_sym.c"]
+MCRT_WRAPS = ["pthread_create", "pthread_join", "pthread_detach", "pthread_exit", "pthread_mutex_init", "pthread_mutex_destroy",
+              "pthread_mutex_lock", "pthread_mutex_trylock", "pthread_mutex_unlock", "pthread_cond_init", "pthread_cond_destroy",
+              "pthread_cond_wait", "pthread_cond_timedwait", "pthread_cond_signal", "pthread_cond_broadcast",
+              "pthread_rwlock_init", "pthread_rwlock_destroy", "pthread_rwlock_rdlock", "pthread_rwlock_tryrdlock",
+              "pthread_rwlock_wrlock", "pthread_rwlock_trywrlock", "pthread_rwlock_unlock",
+              "pthread_key_create", "pthread_key_delete", "pthread_getspecific", "pthread_setspecific",
+              "sched_yield", "pthread_setname_np", "nanosleep", "clock_nanosleep", "usleep",
+              "malloc", "calloc", "realloc", "free", "memcpy", "memset", "memmove"]
+
+
+def build_mc_exe(name, sources, atomic="c11", rwlock="posix", extra_plain=(), extra_wraps=(), exclude=(), cflags=()):
+    """harness linked with the instrumented library and the mcrt runtime (controlled scheduler + HB monitor)"""
+    wraps = MCRT_WRAPS + list(extra_wraps)
+    ld = ["-no-pie", "-Wl," + ",".join("--wrap=" + w for w in wraps)]
+    return build_exe(name, "mc", sources, atomic=atomic, rwlock=rwlock, ldflags=ld, exclude=exclude, cflags=list(cflags) + ["-fno-pie"],
+                     plain_sources=MCRT_SOURCES + list(extra_plain))
+
+
 def build_exe(name, variant, sources, objs=(), cflags=(), ldflags=(), atomic="c11", rwlock="posix", cc="gcc", nolib=False,
-              exclude=()):
+              exclude=(), plain_sources=()):
     """compile harness sources with the variant flags and link with library objects -> path of the executable."""
     vname = "%s-%s-%s" % (variant, atomic, rwlock)
     od = os.path.join(BUILD, vname, "h_" + name)
@@ -191,6 +210,13 @@ def build_exe(name, variant, sources, objs=(), cflags=(), ldflags=(), atomic="c1
         o = os.path.join(od, os.path.basename(s).rsplit(".", 1)[0] + ".o")
         hobjs.append(o)
         jobs.append((cc, s, o, flags, True))
+    pflags = ["-O1", "-g", "-fno-pie", "-w"] + config()["defines"] + ["-I" + i for i in config()["incs"]] + ["-I" + ENGINE]
+    for s in plain_sources:
+        if not os.path.isabs(s):
+            s = os.path.join(VERIF, s)
+        o = os.path.join(od, os.path.basename(s).rsplit(".", 1)[0] + ".o")
+        hobjs.append(o)
+        jobs.append((cc, s, o, pflags, True))
     compile_many(jobs)
     exe = os.path.join(od, name)
     link_flags = [f for f in VARIANT_FLAGS[variant] if f.startswith("-fsanitize")] if variant in ("asan", "tsan") else []
